@@ -34,6 +34,21 @@ type VerifDecoder struct{ dec decoder }
 // Decode reads the next message with the wrapped decoder.
 func (d *VerifDecoder) Decode() (raftpb.Message, error) { return d.dec.decode() }
 
+// Reset makes the wrapped decoder read a new stream from r as a freshly
+// constructed decoder would, but keeps its allocated buffers (a constructor
+// call allocates 1 MiB; a harness trying millions of truncation points cannot
+// afford that). Every field other than the buffers and the node ids is zeroed
+// by the struct literal, exactly as in newMsgAppV2Decoder / newMessageDecoder.
+func (d *VerifDecoder) Reset(r io.Reader) {
+	switch dec := d.dec.(type) {
+	case *messageDecoder:
+		*dec = messageDecoder{r: r, buf: dec.buf}
+	case *msgAppV2Decoder:
+		*dec = msgAppV2Decoder{r: r, local: dec.local, remote: dec.remote,
+			buf: dec.buf, uint64buf: dec.uint64buf, uint8buf: dec.uint8buf}
+	}
+}
+
 // VerifNewMessageEncoder builds the encoder of the "message" stream exactly as
 // streamWriter.run does.
 func VerifNewMessageEncoder(w io.Writer) *VerifEncoder {
